@@ -96,7 +96,7 @@ def gen_cases(rng, n):
         kind = "lj" if rng.random() < 0.3 else "hard"
         shape = rng.choice(shapes_l if kind == "lj" else shapes_h)
         group = rng.choice(GROUPS)
-        steps = rng.choice([50, 100, 200, 400])
+        steps = rng.choice([50, 100, 200, 400, 1000, 2000, 3000])
         opt = "--steps %d --inner-steps %d" % (steps, rng.choice([10, 50, 1000]))
         if rng.random() < 0.4:
             opt += " --kt-start %s" % rng.choice(["0.1", "0.5", "0.01"])
@@ -104,7 +104,7 @@ def gen_cases(rng, n):
             opt += " --kt-finish %s" % rng.choice(["0.001", "0.01"])
         if rng.random() < 0.2:
             opt += " --convergence 1e-6"
-        cases.append(dict(kind=kind, shape=shape, group=group, opt=opt, kmax=rng.choice([2, 3, 4, 5])))
+        cases.append(dict(kind=kind, shape=shape, group=group, opt=opt, kmax=rng.choice([2, 3, 4, 5, 6])))
     return cases
 
 
